@@ -42,6 +42,13 @@ func (r *receiver) receiveRequest(ctx context.Context, initiator peer.ID, incomi
 		attribute.Bool("isPaused", incoming.IsPaused()),
 	))
 	defer span.End()
+	// A new request for a channel that is already being tracked is a duplicate:
+	// it is going to be refused, and refusing it must not disturb the existing
+	// channel or its transport
+	duplicate := false
+	if incoming.IsNew() {
+		duplicate, _ = r.manager.channels.HasChannel(chid)
+	}
 	response, receiveErr := r.manager.OnRequestReceived(chid, incoming)
 	if receiveErr == datatransfer.ErrResume {
 		chst, err := r.manager.channels.GetByID(ctx, chid)
@@ -81,7 +88,9 @@ func (r *receiver) receiveRequest(ctx context.Context, initiator peer.ID, incomi
 	}
 
 	if receiveErr != nil {
-		_ = r.manager.transport.CloseChannel(ctx, chid)
+		if !duplicate {
+			_ = r.manager.transport.CloseChannel(ctx, chid)
+		}
 		return receiveErr
 	}
 
